@@ -133,6 +133,9 @@ func Alphabet() []Gen {
 		gov("A voteBP [1,2]", "", A, types.AergoSystem, nil, func(*Env) []byte { return nk.GovPayload("v1voteBP", bpArg(1), bpArg(2)) }),
 		gov("D voteBP [1]", "", D, types.AergoSystem, nil, func(*Env) []byte { return nk.GovPayload("v1voteBP", bpArg(1)) }),
 		gov("A voteDAO gasprice", "", A, types.AergoSystem, nil, func(*Env) []byte { return nk.GovPayload("v1voteDAO", "GASPRICE", "60000000000") }),
+		// the same ballot as A's: A and D hold equal stakes, together they pass the two-thirds threshold
+		// and the parameter changes (pending until the end of the block)
+		gov("D voteDAO gasprice", "", D, types.AergoSystem, nil, func(*Env) []byte { return nk.GovPayload("v1voteDAO", "GASPRICE", "60000000000") }),
 		gov("D voteDAO gasprice other", "", D, types.AergoSystem, nil, func(*Env) []byte { return nk.GovPayload("v1voteDAO", "GASPRICE", "70000000000") }),
 		gov("B createName b", "", B, types.AergoName, aergo, func(*Env) []byte { return nk.GovPayload("v1createName", NameB) }),
 		gov("C createName c", "", C, types.AergoName, aergo, func(*Env) []byte { return nk.GovPayload("v1createName", NameC) }),
